@@ -274,6 +274,18 @@ def items(mode, slot="util", only=None, with_ops=False, with_cmp=False):
     return out
 
 
+def op_impl_stubs(slot="util"):
+    """the operator impls on &BigInt (Not, Neg, &, |, ^) as stubs (their contracts are the *SpecImpl items of util_bigint_spec.rs)"""
+    import copy
+    out = []
+    for im in OP_IMPLS:
+        im2 = copy.copy(im)
+        im2.slot = slot
+        im2.mode = "stub"
+        out.append(im2)
+    return out
+
+
 def from_impl_stub(slot="util"):
     import copy
     im2 = copy.copy(from_impl)
